@@ -344,3 +344,147 @@ Proof.
     split; [vm_compute; reflexivity|]. split; [vm_compute; repeat constructor; discriminate|]. vm_compute; reflexivity.
   - vm_compute. repeat split; reflexivity.
 Qed.
+
+(* ---- Discard after ErrInvalidUTF8 (the usage of observation kind RDE).  A Reader with
+   CheckUTF8 on, of ANY other configuration [c] (side/extension bits, MaxFrameSize, MessageState
+   attached or not; header checks on, recording OnIntermediate), over ANY transport chunking [s]
+   of the wire bytes of [m1 ++ rest]: [m1] ONE data message (opcode 1 or 2 — only text can fail —,
+   reserved bits rsv0 on its first frame, fragmented arbitrarily, control frames in between),
+   [rest] the frames that follow.  Only the message m1 itself need be WELL-FORMED ON THE WIRE
+   ([first_message_ok], coq/model/ReaderInvalid.v): the frame-sequence spec of the same
+   configuration with the UTF-8 rule switched off either accepts the whole stream ([wire_ok]) or at
+   least gets as far as emitting its first message — every frame up to and including the final
+   frame of m1 passes ws.CheckHeader in the fragmentation state it arrives in, the MaxFrameSize
+   limit and the RSV1 rule of the extension.  NOTHING is assumed about the payload bytes of m1, and
+   NOTHING at all about [rest] beyond its frames being encodable: it may break any rule or end in
+   the middle of a message (m1 itself cut short is C16's business).
+   The caller calls NextFrame and then Read with ANY buffer sizes ks ++ [k]; the LAST of these
+   Reads is the first to report ErrInvalidUTF8 — inside a fragment (rejected byte), at the end of a
+   non-final fragment, or at the very end of the message when the frame is already drained
+   (raw.N = 0), whichever way the model's Read produces it.
+   Then Discard returns nil, and the Reader [r2] it leaves satisfies [reads_on_as_new c rest flag r2]
+   exactly as in C18_reader_next_message_as_new: its source holds exactly the wire bytes of [rest]
+   (Discard consumed the unread remainder of m1, control frames in between handed to the
+   callback, and not one byte more); it is at rest; the MessageState flag is that of m1; the
+   NextFrame / read-to-EOF loop from it, and EVERY sequence of NextFrame / Read / Discard calls,
+   return what they return from a Reader built anew over that source. *)
+Require Import ReaderInvalid ReaderInvalidProofs.
+
+Theorem C18_reader_discard_after_invalid_as_new : forall c rsv0 op k0 p0 l rest s ks k o0 outs d r1,
+  let m1 := msg_frames_rsv rsv0 op k0 p0 l in
+  let flag := c_ext c && rsv1_bit rsv0 in
+  wf_cfg c -> c_check_utf8 c = true -> (op = 1 \/ op = 2) -> Forall wf_sframe (m1 ++ rest) ->
+  Forall (fun x => Forall (fun f => ctl_ok f = true) (fr_ctl x)) l ->
+  first_message_ok c (m1 ++ rest) ->
+  wf_src s -> tl s = TEOF -> flat s = wire (m1 ++ rest) ->
+  let r0 := new_reader s (c_state c) false (c_check_utf8 c) (c_max c) (c_ext c) CbReadAll in
+  run_script (OpNext :: map OpRead ks ++ [OpRead k]) r0 = (o0 :: outs ++ [OutRead d (Some RInvalidUtf8)], r1) ->
+  Forall not_invalid outs ->
+  exists r2, run_script [OpDiscard] r1 = ([OutDiscard None], r2) /\ reads_on_as_new c rest flag r2.
+Proof. exact reader_discard_after_invalid_first_ok. Qed.
+Print Assumptions C18_reader_discard_after_invalid_as_new.
+
+(* a server with extensions (state 5), UTF-8 checking on, chunks of 3,1,7,2,...
+   (A) m1 = the compressed text "hi" | ping | "j" FF "k" | "l" in three masked fragments (FF can
+       never occur in UTF-8), then the valid text "h€" in one frame, then a ping.  NextFrame, Read 2
+       ("hi"), Read 5 (the ping: 0 bytes), Read 2: "j" and ErrInvalidUTF8 INSIDE the non-final
+       second fragment (raw.N = 1).  Discard: nil; the source stands at the next message; the next
+       NextFrame / Read delivers "h€" with io.EOF — the past error has left no trace — and every
+       script returns what it returns from a new Reader over that source.
+   (B) m1 = the single unfragmented frame "h" E2 82 (a code point cut short): NextFrame, Read 9:
+       "h" and ErrInvalidUTF8 at the very END of the message, the frame fully drained (raw.N = 0,
+       frame still set, DFA state 24); Discard: nil, NOT ONE byte read from the source, the Reader at
+       rest; the following valid text message is delivered.
+   The spec WITH the UTF-8 rule calls both streams invalid; without it, clean.
+   (C) m1 of (A) followed by a BROKEN rest: a continuation frame outside a message, then an unfinished
+       message.  The spec without the UTF-8 rule stops at frame 4 (OProtocol 4) but has emitted m1: the
+       stream is [first_message_ok], not [wire_ok].  Same Reads, ErrInvalidUTF8, Discard: nil, the source
+       stands exactly at the broken rest, the Reader is at rest; the next NextFrame reports the protocol
+       error, as it does from a new Reader. *)
+Example C18_reader_discard_after_invalid_nonvacuous :
+  let k1 := [17; 34; 51; 68] in let k2 := [255; 0; 128; 7] in
+  let ping := mkSF true 0 9 (Some k2) [1; 2] in
+  let l := [mkFrag [ping] (Some k2) [106; 255; 107]; mkFrag [] (Some k1) [108]] in
+  let m1 := msg_frames_rsv 4 1 (Some k1) [104; 105] l in
+  let m2 := [mkSF true 0 1 (Some k2) [104; 226; 130; 172]] in
+  let rest := m2 ++ [ping] in
+  let c := mkCfg 5 true 0 true in
+  let s := mkSrc (chunk_by [3; 1; 7; 2] (wire (m1 ++ rest))) TEOF in
+  let r0 := new_reader s 5 false true 0 true CbReadAll in
+  let res := run_script [OpNext; OpRead 2; OpRead 5; OpRead 2] r0 in
+  let r1 := snd res in
+  let r2 := snd (run_script [OpDiscard] r1) in
+  let script := [OpNext; OpRead 9; OpNext; OpRead 4] in
+  let errs := map (fun o => match o with OutNext _ e => e | OutRead _ e => e | OutDiscard e => e end) in
+  let m1b := msg_frames_rsv 0 1 (Some k1) [104; 226; 130] [] in
+  let sb := mkSrc (chunk_by [3; 1; 7; 2] (wire (m1b ++ rest))) TEOF in
+  let r0b := new_reader sb 5 false true 0 true CbReadAll in
+  let resb := run_script [OpNext; OpRead 9] r0b in
+  let r1b := snd resb in
+  let r2b := snd (run_script [OpDiscard] r1b) in
+  let bad := [mkSF true 0 0 (Some k2) [1]; mkSF false 0 1 (Some k2) [1]] in
+  let sc := mkSrc (chunk_by [3; 1; 7; 2] (wire (m1 ++ bad))) TEOF in
+  let r0c := new_reader sc 5 false true 0 true CbReadAll in
+  let r1c := snd (run_script [OpNext; OpRead 2; OpRead 5; OpRead 2] r0c) in
+  let r2c := snd (run_script [OpDiscard] r1c) in
+  (wf_cfg c /\ Forall wf_sframe (m1 ++ rest) /\ wire_ok c (m1 ++ rest) /\
+   sr_out (spec_run c 0 None [] (m1 ++ rest)) = OInvalidUtf8 /\ wf_src s /\ flat s = wire (m1 ++ rest)) /\
+  (errs (fst res) = [None; None; None; Some RInvalidUtf8] /\
+   (exists h, fst res = [OutNext h None; OutRead [104; 105] None; OutRead [] None; OutRead [106] (Some RInvalidUtf8)]) /\
+   r_rawN r1 = 1 /\ r_u8state r1 = 12 /\
+   fst (run_script [OpDiscard] r1) = [OutDiscard None] /\ at_rest r2 /\ flat (r_src r2) = wire rest /\
+   r_log r2 = [mkEv 9 [1; 2] true true] /\
+   (exists h1 h2, fst (run_script script r2) =
+      [OutNext h1 None; OutRead [104; 226; 130; 172] (Some (RIo EEOF)); OutNext h2 None; OutRead [1; 2] (Some (RIo EEOF))]) /\
+   fst (run_script script r2) = fst (run_script script (new_reader (r_src r2) 5 false true 0 true CbReadAll))) /\
+  (Forall wf_sframe (m1b ++ rest) /\ wire_ok c (m1b ++ rest) /\
+   sr_out (spec_run c 0 None [] (m1b ++ rest)) = OInvalidUtf8 /\ wf_src sb /\ flat sb = wire (m1b ++ rest) /\
+   errs (fst resb) = [None; Some RInvalidUtf8] /\
+   r_rawN r1b = 0 /\ r_frame r1b = true /\ r_u8state r1b = 24 /\ flat (r_src r1b) = wire rest /\
+   fst (run_script [OpDiscard] r1b) = [OutDiscard None] /\ at_rest r2b /\ r_src r2b = r_src r1b /\
+   (exists h1 h2, fst (run_script script r2b) =
+      [OutNext h1 None; OutRead [104; 226; 130; 172] (Some (RIo EEOF)); OutNext h2 None; OutRead [1; 2] (Some (RIo EEOF))])) /\
+  (Forall wf_sframe (m1 ++ bad) /\ first_message_ok c (m1 ++ bad) /\
+   sr_out (spec_run (no_utf8 c) 0 None [] (m1 ++ bad)) = OProtocol 4 /\ wf_src sc /\ flat sc = wire (m1 ++ bad) /\
+   errs (fst (run_script [OpNext; OpRead 2; OpRead 5; OpRead 2] r0c)) = [None; None; None; Some RInvalidUtf8] /\
+   fst (run_script [OpDiscard] r1c) = [OutDiscard None] /\ at_rest r2c /\ flat (r_src r2c) = wire bad /\
+   errs (fst (run_script [OpNext] r2c)) = [Some (RProtocol ContinuationUnexpected)] /\
+   fst (run_script [OpNext] r2c) = fst (run_script [OpNext] (new_reader (r_src r2c) 5 false true 0 true CbReadAll))).
+Proof.
+  cbv zeta. split; [|split; [|split]].
+  4: { split.
+       { repeat constructor; try reflexivity; try (intro H; discriminate H). }
+       split; [right; vm_compute; discriminate|]. split; [vm_compute; reflexivity|].
+       split; [vm_compute; repeat constructor; discriminate|]. split; [vm_compute; reflexivity|].
+       split; [vm_compute; reflexivity|]. split; [vm_compute; reflexivity|].
+       split; [vm_compute; split; reflexivity|]. split; [vm_compute; reflexivity|].
+       split; vm_compute; reflexivity. }
+  - split; [reflexivity|]. split.
+    { repeat constructor; try reflexivity; try (intro H; discriminate H). }
+    split; [vm_compute; reflexivity|]. split; [vm_compute; reflexivity|].
+    split; [vm_compute; repeat constructor; discriminate|]. vm_compute; reflexivity.
+  - split; [vm_compute; reflexivity|]. split; [eexists; vm_compute; reflexivity|].
+    split; [vm_compute; reflexivity|]. split; [vm_compute; reflexivity|]. split; [vm_compute; reflexivity|].
+    split; [vm_compute; split; reflexivity|]. split; [vm_compute; reflexivity|]. split; [vm_compute; reflexivity|].
+    split; [do 2 eexists; vm_compute; reflexivity|]. vm_compute; reflexivity.
+  - split.
+    { repeat constructor; try reflexivity; try (intro H; discriminate H). }
+    split; [vm_compute; reflexivity|]. split; [vm_compute; reflexivity|].
+    split; [vm_compute; repeat constructor; discriminate|]. split; [vm_compute; reflexivity|].
+    split; [vm_compute; reflexivity|]. split; [vm_compute; reflexivity|]. split; [vm_compute; reflexivity|].
+    split; [vm_compute; reflexivity|]. split; [vm_compute; reflexivity|]. split; [vm_compute; reflexivity|].
+    split; [vm_compute; split; reflexivity|]. split; [vm_compute; reflexivity|].
+    do 2 eexists; vm_compute; reflexivity.
+Qed.
+
+(* State level, the special case "ErrInvalidUTF8 reported at the very end of the message": Read then
+   leaves the frame set, raw.N = 0 and State not fragmented (case (B) of the example above).  For EVERY
+   Reader state of that kind — whatever its history, configuration, UTF8Reader state and source, valid
+   stream or not — Discard (with any fuel >= 1) returns nil, is literally reset(), leaves the source
+   untouched (not one byte read), and the Reader is at rest — hence, by C18_reader_at_rest_is_new, behaves
+   as the Reader built anew over its source, configuration and MessageState. *)
+Theorem C18_reader_discard_drained_is_reset : forall n r,
+  r_rawN r = 0 -> st_fragmented (r_state r) = false ->
+  discard (S n) r = (None, reset r) /\ r_src (reset r) = r_src r /\ at_rest (reset r).
+Proof. exact discard_drained_is_reset. Qed.
+Print Assumptions C18_reader_discard_drained_is_reset.
